@@ -42,11 +42,16 @@ def gen_case(rng, maxchain):
             a["U"] = sym_tensor(rng, rng.choice(["pd", "pd", "pd", "mixed", "diag", "traceless"]))
         elif w < 0.8:
             a["Uiso"] = rng.uniform(0.001, 0.1)
-        elif w < 0.9:
+        elif w < 0.88:
             a["U"] = sym_tensor(rng, "pd")
             a["then_iso"] = True          # anisotropic first, flag switched off afterwards (stale storage)
-        else:
+        elif w < 0.94:
             a["Uiso"] = 0.0
+        elif w < 0.985:
+            a["Uiso"] = rng.uniform(0.001, 0.1)
+            a["then_aniso"] = True        # flag switched ON in the first lattice: tensor exactly Uiso x isotropicunit
+        else:
+            a["U"] = sym_tensor(rng, "zero")   # flag on, zero tensor
         atoms.append(a)
     n = rng.randint(1, maxchain)
     chain = []
@@ -100,6 +105,8 @@ def build_stru(case, L1):
     for a, at in zip(case["atoms"], s):
         if a.get("then_iso"):
             at.anisotropy = False
+        if a.get("then_aniso"):
+            at.anisotropy = True
     return s
 
 
@@ -493,7 +500,7 @@ def run(ck):
         for s in case["lats"]:
             hist["lattice_kinds"][s["kind"]] = hist["lattice_kinds"].get(s["kind"], 0) + 1
         for a in case["atoms"]:
-            if "U" in a and not a.get("then_iso"):
+            if ("U" in a and not a.get("then_iso")) or a.get("then_aniso"):
                 hist["aniso_atoms"] += 1
             else:
                 hist["iso_atoms"] += 1
@@ -539,7 +546,7 @@ def run(ck):
     ck.coverage["distinct_nontrivial"] += nontriv
     ck.coverage["rule"] = (
         "seeded random structures of 0-5 atoms (anisotropic symmetric tensors, isotropic values, atoms switched to isotropic after an "
-        "anisotropic assignment, zero ADPs) in a random lattice, placed through chains of 1-%d lattices drawn from {oblique+rotated, oblique, "
+        "anisotropic assignment, isotropic atoms switched to anisotropic (tensor exactly Uiso x isotropicunit, flag on), zero tensors with the flag on or off) in a random lattice (about a third of all lattices re-oriented or re-parametrised IN PLACE after construction), placed through chains of 1-%d lattices drawn from {oblique+rotated, oblique, "
         "from base vectors (setLatBase), hexagonal, orthogonal, monoclinic, cubic, supercell of the first (ncell folding), copy of the first, "
         "the first cell re-oriented (same six parameters, other rotation) through baserot= and through base=}, the same object may be repeated; "
         "40%% of the chains return to the first lattice; compared with the Float model after every placement; oracle with plain numpy from "
